@@ -478,20 +478,22 @@ def gen_h2d(r, npts, lane):
         xs = [r.choice(["nan", "inf", "-inf"]) for _ in xs]
     fx = [v for v in xs if not isinstance(v, str) and (not logx or v > 0)]
     fy = [v for v in ys if not isinstance(v, str) and (not logy or v > 0)]
-    def explicit(fin, which):
+    def explicit(fin, which, log=False):
         if not fin:
             return {"min": 0.5, "max": 8.0}[which]
         lo, hi = min(fin), max(fin)
         t = r.uniform(0.1, 0.4)
         if lo == hi:          # a single value: limits on either side of it
+            if log:           # a limit of a logarithmic axis must stay positive
+                return lo / (1.0 + t) if which == "min" else hi * (1.0 + t)
             return lo - t * (abs(lo) + 1.0) if which == "min" else hi + t * (abs(hi) + 1.0)
         return lo + t * (hi - lo) if which == "min" else hi - t * (hi - lo)
     if kind in ("explicit", "empty_explicit"):
-        lim = {"xmin": explicit(fx, "min"), "xmax": explicit(fx, "max"), "ymin": explicit(fy, "min"), "ymax": explicit(fy, "max")}
+        lim = {"xmin": explicit(fx, "min", logx), "xmax": explicit(fx, "max", logx), "ymin": explicit(fy, "min", logy), "ymax": explicit(fy, "max", logy)}
     elif kind == "mixed_limits" or (kind in ("log", "loglin") and r.random() < 0.5):
         for k, fin in (("xmin", fx), ("xmax", fx), ("ymin", fy), ("ymax", fy)):
             if r.random() < 0.5:
-                lim[k] = explicit(fin, k[1:])
+                lim[k] = explicit(fin, k[1:], logx if k[0] == "x" else logy)
     return {"level": "h2d", "lane": "tol", "res": res, "logx": logx, "logy": logy, "xs": xs, "ys": ys,
             "values": [[r.uniform(-1, 10) for _ in range(npts)] for _ in range(nl)], "ops": ops, "operation": operation,
             "lim": lim, "units": units, "quantity_limits": False, "tags": ["h2d", "tol", kind]}
